@@ -478,6 +478,9 @@ func noBreakerCase(idx, pre int) *fail {
 		outs = append(outs, oBad)
 	}
 	outs = append(outs, oPanic, oAccErr, oOK, oBad)
+	// the value family: a request that itself reports ErrServiceUnavailable (a nested breaker), a
+	// context error, a typed nil ... is still an admitted call: run once, returned unchanged, no fallback
+	outs = append(outs, valueOutcomesOf(e)...)
 	for i, out := range outs {
 		hook.mode = ansDrop
 		o := doCall(nil, name, e, out, realCtx, nil)
